@@ -1673,7 +1673,10 @@ func (ex *Exec) typeAssert(st *State, x *Val, to types.Type) (*Val, string) {
 		}
 		// other dynamic types
 		if _, isIface := to.Underlying().(*types.Interface); isIface {
-			okb := ex.eng.smt.fresh("taok", "Bool")
+			// whether a dynamic type implements an interface is a fixed (uninterpreted) fact about the type
+			fname := fmt.Sprintf("uf_implements_%d", typeID(to))
+			ex.eng.smt.declFun(fname, "(declare-fun "+fname+" (Int Int) Bool)")
+			okb := "(" + fname + " " + tag + " " + x.kid("ty").S + ")"
 			v := ex.freshVal(to, "ta")
 			if v.Sh.IsLeaf() && v.Sh.Leaf == "Int" {
 				v = &Val{Sh: v.Sh, T: to, S: x.kid("ref").S}
